@@ -1,0 +1,104 @@
+//go:build verif
+
+package main
+
+import (
+	"encoding/json"
+	"fmt"
+	"sort"
+
+	"github.com/ludo-technologies/pyscn/internal/analyzer"
+)
+
+func init() {
+	// group: run a real GroupingStrategy (via CreateGroupingStrategy) on a given weighted
+	// pair graph. Fragments are numbered 0..n-1; "locs" gives each fragment's location
+	// [file, startLine, endLine, startCol, endCol] (default: one file, 10 lines apart, so
+	// that the location order is the numbering). Pairs are [i, j, similarity].
+	// "repeat" > 1 runs the strategy several times (fresh maps each time) and reports
+	// whether the partition was the same every time.
+	register("group", func(raw json.RawMessage) (interface{}, error) {
+		var req struct {
+			N         int             `json:"n"`
+			Locs      [][]interface{} `json:"locs"`
+			Pairs     [][]float64     `json:"pairs"`
+			Mode      string          `json:"mode"`
+			Threshold float64         `json:"threshold"`
+			K         int             `json:"k"`
+			Repeat    int             `json:"repeat"`
+		}
+		if err := json.Unmarshal(raw, &req); err != nil {
+			return nil, err
+		}
+		frags := make([]*analyzer.CodeFragment, req.N)
+		index := make(map[*analyzer.CodeFragment]int, req.N)
+		for i := 0; i < req.N; i++ {
+			loc := &analyzer.CodeLocation{FilePath: "m.py", StartLine: 10*i + 1, EndLine: 10*i + 6, StartCol: 0, EndCol: 4}
+			if i < len(req.Locs) && len(req.Locs[i]) == 5 {
+				l := req.Locs[i]
+				file, _ := l[0].(string)
+				num := func(v interface{}) int { f, _ := v.(float64); return int(f) }
+				loc = &analyzer.CodeLocation{FilePath: file, StartLine: num(l[1]), EndLine: num(l[2]), StartCol: num(l[3]), EndCol: num(l[4])}
+			}
+			frags[i] = &analyzer.CodeFragment{Location: loc, Size: 20, LineCount: loc.EndLine - loc.StartLine + 1}
+			index[frags[i]] = i
+		}
+		pairs := make([]*analyzer.ClonePair, 0, len(req.Pairs))
+		for _, p := range req.Pairs {
+			if len(p) != 3 {
+				return nil, fmt.Errorf("pair must be [i, j, sim]")
+			}
+			i, j := int(p[0]), int(p[1])
+			if i < 0 || j < 0 || i >= req.N || j >= req.N {
+				return nil, fmt.Errorf("pair endpoint out of range")
+			}
+			pairs = append(pairs, &analyzer.ClonePair{Fragment1: frags[i], Fragment2: frags[j], Similarity: p[2],
+				Distance: 1 - p[2], CloneType: analyzer.Type3Clone, Confidence: 1})
+		}
+		cfg := analyzer.GroupingConfig{Mode: analyzer.GroupingMode(req.Mode), Threshold: req.Threshold, KCoreK: req.K,
+			Type1Threshold: 0.98, Type2Threshold: 0.95, Type3Threshold: 0.85, Type4Threshold: 0.8}
+		run := func() ([][]int, []int, []float64, []int, string) {
+			st := analyzer.CreateGroupingStrategy(cfg)
+			gs := st.GroupClones(pairs)
+			out := make([][]int, 0, len(gs))
+			ids := make([]int, 0, len(gs))
+			sims := make([]float64, 0, len(gs))
+			sizes := make([]int, 0, len(gs))
+			for _, g := range gs {
+				m := make([]int, 0, len(g.Fragments))
+				for _, f := range g.Fragments {
+					if k, ok := index[f]; ok {
+						m = append(m, k)
+					} else {
+						m = append(m, -1)
+					}
+				}
+				out = append(out, m)
+				ids = append(ids, g.ID)
+				sims = append(sims, g.Similarity)
+				sizes = append(sizes, g.Size)
+			}
+			return out, ids, sims, sizes, st.GetName()
+		}
+		canon := func(gs [][]int) string {
+			c := make([]string, 0, len(gs))
+			for _, g := range gs {
+				m := append([]int(nil), g...)
+				sort.Ints(m)
+				c = append(c, fmt.Sprint(m))
+			}
+			sort.Strings(c)
+			return fmt.Sprint(c)
+		}
+		groups, ids, sims, sizes, name := run()
+		stable := true
+		for r := 1; r < req.Repeat; r++ {
+			g2, _, _, _, _ := run()
+			if canon(g2) != canon(groups) {
+				stable = false
+			}
+		}
+		return map[string]interface{}{"groups": groups, "ids": ids, "similarity": sims, "sizes": sizes,
+			"strategy": name, "stable": stable}, nil
+	})
+}
